@@ -118,7 +118,7 @@ func scenC10(r *Run) {
 		case mode == "loss":
 			k = r.PlanOf("none", "abort", "cancel", "close", "reset")
 		case i == 0:
-			k = r.PlanOf("silence", "slow", "silence", "slow", "drop")
+			k = r.PlanOf("silence", "slow", "silence", "slow", "drop", "lossy", "accepterr")
 		default:
 			k = r.PlanOf("none", "abort", "cancel", "abort", "cancel", "slow", "silence")
 		}
@@ -129,12 +129,12 @@ func scenC10(r *Run) {
 			switch k {
 			case "close", "reset":
 				k = "abort"
-			case "silence", "drop":
+			case "silence", "drop", "lossy":
 				if kind != "udp" {
 					k = "slow"
 				}
 			}
-		} else if k == "drop" {
+		} else if k == "drop" || k == "lossy" {
 			k = "silence"
 		}
 		switch k {
@@ -151,6 +151,26 @@ func scenC10(r *Run) {
 			conn := r.Plan(2)
 			net.AddFault(conn, dir, off, k)
 			faultDesc = append(faultDesc, fmt.Sprintf("%s conn%d %s@%d", k, conn, dir, off))
+			continue
+		case "accepterr":
+			// the server's next accepts fail with a temporary error: it must back off and go on accepting
+			// (not under fasthttp: its accept loop - third-party code, not hprose's - treats a temporary accept
+			// error as permanent in this version and stops serving)
+			if !fx.HasConns() || warm || kind == "fasthttp" || kind == "websocket-fast" {
+				k = "slow"
+				wantSlow = true
+				break
+			}
+			nerr := 1 + r.Plan(3)
+			net.AcceptTempErrors(nerr)
+			faultDesc = append(faultDesc, fmt.Sprintf("accept-temp-error x%d", nerr))
+			continue
+		case "lossy":
+			// a lossy datagram network: every delivery may be lost or duplicated, and datagrams overtake one another
+			fx.UDP.LossDen = 2 + r.Plan(4)
+			fx.UDP.DupDen = 3 + r.Plan(4)
+			fx.UDP.Reorder = true
+			faultDesc = append(faultDesc, fmt.Sprintf("udp-lossy loss 1/%d dup 1/%d reorder", fx.UDP.LossDen, fx.UDP.DupDen))
 			continue
 		case "drop":
 			dir := r.PlanOf("c2s", "s2c")
@@ -273,6 +293,9 @@ func scenC10(r *Run) {
 		net.PlanFaults = map[int]map[string][]*linkFault{}
 		net.DialFail = 0
 		fx.UDP.DropNth, fx.UDP.SilenceFrom = map[string]map[int]bool{}, map[string]int{}
+		savedLossy := [2]int{fx.UDP.LossDen, fx.UDP.DupDen}
+		savedReorder := fx.UDP.Reorder
+		fx.UDP.LossDen, fx.UDP.DupDen, fx.UDP.Reorder = 0, 0, false
 		// the warm-up is not the subject: give it a timeout no stall can reach
 		client.Timeout = time.Hour
 		wc := &c10call{id: 0, nonce: 7, timeout: time.Hour}
@@ -298,6 +321,7 @@ func scenC10(r *Run) {
 		net.DialFail = savedDial
 		net.ArmExisting()
 		fx.UDP.DropNth, fx.UDP.SilenceFrom = savedUDP[0].(map[string]map[int]bool), savedUDP[1].(map[string]int)
+		fx.UDP.LossDen, fx.UDP.DupDen, fx.UDP.Reorder = savedLossy[0], savedLossy[1], savedReorder
 		fx.UDP.RebaseCounters()
 	}
 
